@@ -22,7 +22,7 @@ TYPES = ["f64", "f32", "i16", "i8"]
 NP = {"f64": np.float64, "f32": np.float32, "i16": np.int16, "i8": np.int8, "i64": np.int64, "u8": np.uint8}
 TYNAME = {"float64": "f64", "float32": "f32", "int16": "i16", "int8": "i8", "int64": "i64", "uint8": "u8"}
 MODE_OF = {"float32": "f32", "int16": "i16", "int8": "i8"}
-STEMS = ["volume", "frame", "tomogram", "mic", "a.b", "rec", "em", "tilt_1", "ctf_corr", "x.em.bak"]
+STEMS = ["volume", "frame", "tomogram", "mic", "a.b", "rec", "em", "tilt_1", "ctf_corr", "x.em.bak", "2024", "007"]
 EXTS = ["mrc", "rec", "em"]
 SPELL = {
     "f64": [np.float64, np.dtype("float64"), "float64", "f8", "d", np.double, float],
